@@ -11,7 +11,7 @@ LEVEL_NOTE_COMMON = ("Trusted: Coq 8.16.1 kernel (vm_compute in finite sweeps/wi
 
 CHECKS = {
     "C07": dict(
-        text=("Theorems over all frames, byte streams, cuttings and send/flush scripts (Props/C07.v): encode;decode = id "
+        text=("14 theorems over all frames, byte streams, cuttings and send/flush scripts (Props/C07.v; incl. the SERVER's start: for every short-write script of descriptor 1 the stream starts with the complete synchronisation string followed by the multiplexer's frames — c07_server_start, c07_server_start_end_to_end, Model/WireStart.v; the real server.main is driven on a scripted raw descriptor): encode;decode = id "
               "for every channel/command < 2^16 and payload 0..65535; the receive loop with its cached 'want' equals the "
               "stream-level decoder under every cutting; sender invariant under every partial-write pattern; link = FIFO; "
               "handshake outcome is a function of the byte stream. Tied to /repo by running the real ssnet.Mux and "
@@ -31,7 +31,7 @@ CHECKS = {
         design="DESIGN.md §5 C03",
         technique="Coq proof (sorting + first-match lemmas, per-method walk theorems) + rule-text correspondence + packet-walk oracle on emitted rules"),
     "C10": dict(
-        text=("33 theorems over all event sequences of the datagram state machines (Props/C10.v): query relayed verbatim on a fresh "
+        text=("36 theorems over all event sequences of the datagram state machines (Props/C10.v; incl. the end of TCP flows sharing the identifier table: a captured query is forwarded whenever one of the identifiers the cursor visits is free, finished TCP flows included — c10_query_forwarded_if_identifier_free, c10_tcp_end_releases_identifier): query relayed verbatim on a fresh "
               "identifier, resolver target and at most 3 attempts with retry only after NET_ERRS, first reply relayed once and handler retired, "
               "reply to the recorded asker from the recorded destination, at most one datagram per query over whole runs, exact lazy expiry, "
               "no exception for any socket outcome or identifier exhaustion; WHOLE SERVER: an invariant relating handlers, dnshandlers, udphandlers and mux.channels holds in every reachable state of the real loop structure, "
@@ -42,7 +42,7 @@ CHECKS = {
         design="DESIGN.md §5 C10",
         technique="Coq proof (invariants over event sequences of an executable state machine with virtual time) + step-by-step differential correspondence"),
     "C11": dict(
-        text=("28 theorems (Props/C11.v): header round trip for every address text, port and payload incl. commas, one captured datagram = "
+        text=("30 theorems (Props/C11.v; incl. c11_datagram_forwarded_if_identifier_free / _after_tcp_end): header round trip for every address text, port and payload incl. commas, one captured datagram = "
               "one sendto with identical payload to the dialled address on the association's single socket, replies delivered once to the source, "
               "shared channel per source with deadline refresh, idle expiry closing both ends and a fresh identifier afterwards, frame size bound, "
               "no exception for any socket outcome; the whole server never raises for UDP scripts of a conforming client (c11_server_no_crash_full; the bound ch <= 65535 is a wire-format fact: c11_server_unbounded_channel_refuted); END TO END: every frame sequence the client emits satisfies the server's preconditions (c11_client_frames_conform), so along every run of the composed system — any mix of DNS, UDP and TCP-accept events, any schedule, socket outcome and time — the SERVER never raises nor leaves through Fatal (c11_system_server_never_raises, c11_server_never_fatal; this found and needed the repair of F80), and under no_stale_alloc_any neither side does (c11_system_never_raises); without it a late reply on a reassigned identifier kills the client (c11_system_stale_crash_refuted = known finding F81). Same correspondence harness as C10 with the real tproxy recv_udp/send_udp on scripted cmsg data."),
@@ -59,7 +59,7 @@ CHECKS = {
         design="DESIGN.md §5 C13",
         technique="Coq proof (renderer/parser round trip, induction over line lists and cut positions) + three-way differential correspondence"),
     "C14": dict(
-        text=("18 theorems (Props/C14.v) over all file contents, host maps, ports, crash points and histories: the rewrite result is byte for byte "
+        text=("26 theorems (Props/C14.v; incl. update histories through the helper's control-channel loop: one marked line per name at the address of its LAST update — c14_map_last_address, c14_session_last_address — and hosts files of ARBITRARY bytes: undecodable content means the call gives up with the file system untouched, decodable content is rewritten byte for byte — c14_rewrite_any_bytes, c14_restore_any_bytes, utf8_ok compared with CPython's decoder on every run) over all file contents, host maps, ports, crash points and histories: the rewrite result is byte for byte "
               "the old lines without this port's marked lines plus one marked line per sorted entry (modulo exactly Python's trailing-whitespace "
               "normalisation, stated); marker injectivity over ports; only rename changes the hosts path and every crash point leaves the previous "
               "or the complete next version; serial histories of any number of instances keep base lines and each instance's last map. "
@@ -99,7 +99,7 @@ CHECKS = {
         technique="Coq proof (trace function over environment scripts, case analysis and induction over the iteration list) + trace differential correspondence"),
 
     "C05": dict(
-        text=("18 theorems over every 4-/16-byte address, every port < 65536 and both host endiannesses (Props/C05.v): original_dst decodes "
+        text=("21 theorems over every 4-/16-byte address, every port < 65536 and both host endiannesses (Props/C05.v; incl. the kernel's ancillary-data truncation: with the 24 bytes of room the code offers, the IPv6 destination is decoded although MSG_CTRUNC is set on every IPv6 datagram — c05_cmsg6_kernel, c05_cmsg6_kernel_always_ctrunc; the harness's recvmsg stand-in is compared with the running kernel on loopback sockets in every run): original_dst decodes "
               "sockaddr_in/sockaddr_in6 to (canonical text, port); tproxy cmsg decoding; parse(format a) = a for the dotted-quad printer and for "
               "BOTH RFC 5952 printers used (ipaddress.__str__ and inet_ntop), text never contains ','; CONNECT payload and UDP header round trips "
               "(payload may contain commas); pf query request fits the helper's line reader and the dialogue returns the kernel's destination; "
